@@ -11,6 +11,28 @@ def run(chk):
     exe = vlib.build_harness('release')
     res = vlib.tlc('MC_PlanCache', workers=8, xss='64m', timeout=1800, tag='MC_PlanCache', coverage=not chk.quick)
     vlib.expect_mc_ok(chk, res, 'MC_PlanCache')
+    # unbounded depth: the invariant is inductive (Apalache): base case, inductive step from an arbitrary state, and two
+    # controls - a state with a full cache and two racing inserts satisfies the invariant (the step is not vacuous), and the
+    # insert step without the second look-up does NOT preserve it
+    import os
+    mod = os.path.join(vlib.SPEC, 'apalache', 'PlanCacheInd.tla')
+    runs = [('base', ['--cinit=ConstInit', '--init=Init', '--inv=IndInv', '--length=0'], 'NoError'),
+            ('step', ['--cinit=ConstInit', '--init=IndInit', '--inv=IndInv', '--length=1'], 'NoError'),
+            ('witness', ['--cinit=ConstInit', '--init=IndInit', '--inv=WitnessFullCache', '--length=0'], 'Error'),
+            ('control', ['--cinit=ConstInit', '--init=IndInit', '--next=NextBuggy', '--inv=IndInv', '--length=1'], 'Error')]
+    import concurrent.futures
+    with concurrent.futures.ThreadPoolExecutor(max_workers=4) as ex:
+        outs = list(ex.map(lambda r: vlib.apalache(mod, r[1]), runs))
+    for (name, args, want), (got, txt) in zip(runs, outs):
+        if got is None:
+            raise vlib.ToolError('apalache gave no outcome on PlanCacheInd (%s): %s' % (name, txt[-300:]))
+        if got != want:
+            if name in ('base', 'step'):
+                chk.violation('spec:PlanCacheInd:%s' % name, 'the plan-cache invariant is not inductive (%s)' % name, {'apalache_tail': txt.splitlines()[-40:]})
+            else:
+                raise vlib.ToolError('apalache control run %s: expected %s, got %s' % (name, want, got))
+    chk.cov['apalache'] = {'module': 'spec/apalache/PlanCacheInd.tla', 'runs': [r[0] for r in runs],
+                           'bounds': 'Threads = {1,2,3}, Cap in 1..4, caches of up to 4 keys, keys any integer >= 1; any number of steps (inductive)'}
     # schedules
     rs = vlib.tlc_parallel([dict(module='MC_PlanCache', cfg='MC_PlanCache_sched%d.cfg' % c, workers=3, xss='64m', timeout=1800,
                                  tag='MC_PlanCache[schedules prefill %d]' % c) for c in (63, 64)])
